@@ -30,6 +30,7 @@ func c01Letters() []pwLetter {
 		{Name: "p(good)", Bytes: pgproto.Password("good"), Accept: "yes", Outcome: "accept", PW: "good"},
 		{Name: "p(bad)", Bytes: pgproto.Password("bad"), Accept: "no", Outcome: "reject"},
 		{Name: "p(err)", Bytes: pgproto.Password("err"), Accept: "no", Outcome: "fail"},
+		{Name: "p(validator returns true together with an error)", Bytes: pgproto.Password("errtrue"), Accept: "no", Outcome: "fail"},
 		{Name: "p(empty password)", Bytes: pgproto.Password(""), Accept: "no", Outcome: "reject"},
 		{Name: "p without NUL", Bytes: pgproto.Msg('p', []byte("good")), Accept: "no"},
 		{Name: "p empty body", Bytes: pgproto.Msg('p', nil), Accept: "no"},
@@ -83,7 +84,7 @@ func init() {
 		ID:        "C01",
 		Level:     "model_checking",
 		Technique: "exhaustive enumeration of (startup parameters x message sent in place of the password x validator outcome x continuation history x delivery mode) on a real server with cleartext authentication, judged by a three-state reference machine (await-password / accepted / rejected-closed) and a differential run without authentication; plus stateless schedule exploration (cooperative scheduler, preemption-bounded DFS with happens-before state caching, race monitor) of two connections authenticating concurrently",
-		Rule:      "27 messages in place of the password (well-formed with accept/reject/fail validator outcomes, malformed, every other type byte, truncated, oversized, EOF) x 3 startup parameter sets x all continuations of length <= d over 7 letters x {pipelined in the same segment, after quiescence}; distinct = distinct cases",
+		Rule:      "27 messages in place of the password (well-formed with accept/reject/fail validator outcomes, malformed, every other type byte, truncated, oversized, EOF) x 3 startup parameter sets x all continuations of length <= d over 7 letters x {pipelined in the same segment, after quiescence}; log-in sequences: all sequences of 2-3 attempts over 5 (database, user, password) triples on one server whose validator accepts exactly one triple; distinct = distinct cases",
 		Assumptions: []string{
 			"not asserted: whether validator failure / malformed cases send an ErrorResponse before closing; a ReadyForQuery directly behind the rejection ErrorResponse is noted, not a violation",
 			"a password message with surplus bytes after the NUL may be accepted (with exactly the string before the NUL) or rejected",
@@ -119,6 +120,68 @@ func c01TLS(emit explore.Emit) {
 	}
 }
 
+// c01RunSequence: several log-in attempts, one connection after the other, on ONE server whose validator accepts
+// exactly one (database, user, password) triple. Every attempt is judged on its own: what an earlier connection
+// presented (and was granted) decides nothing for a later one.
+type c01Attempt struct{ db, user, pw string }
+
+func (a c01Attempt) good() bool { return a == c01Attempt{"db1", "alice", "good"} }
+
+func c01RunSequence(seq []c01Attempt) explore.Result {
+	var res explore.Result
+	res.Outcome = "sequence"
+	res.Key = fmt.Sprint("seq", seq)
+	var calls []string
+	rec := &script.Rec{}
+	validate := func(ctx context.Context, database, username, password string) (context.Context, bool, error) {
+		calls = append(calls, fmt.Sprintf("db=%q user=%q pw=%q", database, username, password))
+		return ctx, (c01Attempt{database, username, password}).good(), nil
+	}
+	srv, err := harness.NewServer(rec.ParseFn(), wire.SessionAuthStrategy(wire.ClearTextPassword(validate)))
+	if err != nil {
+		res.Engine = err.Error()
+		return res
+	}
+	defer srv.Stop()
+	for i, a := range seq {
+		c := srv.Connect()
+		n0, e0 := len(calls), len(rec.Evs)
+		out, st := c.Step(pgproto.Startup("user", a.user, "database", a.db))
+		if k := harness.Kinds(out); k != "R" || st != memnet.Parked {
+			res.Fail("password-request", fmt.Sprintf("attempt %d %v of %v: startup answered %q (%s)", i, a, seq, k, st))
+			return res
+		}
+		out, st = c.Step(pgproto.Cat(pgproto.Password(a.pw), pgproto.Query(progRows)))
+		k := harness.Kinds(out)
+		what := fmt.Sprintf("attempt %d %v of the sequence %v (the validator accepts only {db1 alice good})", i, a, seq)
+		want := fmt.Sprintf("db=%q user=%q pw=%q", a.db, a.user, a.pw)
+		// (a triple the validator has accepted before on this server need not be presented to it again: the
+		// statement speaks of the validator's answer, not of how often it is asked)
+		acceptedBefore := false
+		for _, b := range seq[:i] {
+			acceptedBefore = acceptedBefore || (b == a && a.good())
+		}
+		if got := calls[n0:]; !(len(got) == 1 && got[0] == want) && !(len(got) == 0 && acceptedBefore) {
+			res.Fail("validator-arguments", fmt.Sprintf("%s: validator calls %v, expected exactly [%s]", what, got, want))
+		}
+		if a.good() {
+			if !strings.HasPrefix(k, "R") || !strings.HasSuffix(k, "ZTDCZ") || st != memnet.Parked {
+				res.Fail("accepted-session-differs", fmt.Sprintf("%s: answered %q (%s)", what, k, st))
+			}
+		} else {
+			if strings.Contains(k, "R") || strings.Contains(k, "S") || strings.Contains(k, "T") || len(rec.Evs) != e0 {
+				res.Fail("session-without-accepted-credentials", fmt.Sprintf("%s: answered %q, callbacks %v", what, k, evKinds(rec.Evs[e0:])))
+			}
+			if st != memnet.Closed {
+				res.Fail("connection-not-closed", fmt.Sprintf("%s: connection is %s", what, st))
+			}
+		}
+		c.End()
+	}
+	res.Trans = []string{fmt.Sprintf("server|%d attempts|server", len(seq))}
+	return res
+}
+
 func c01Depth(tier string) int {
 	if tier == "thorough" {
 		return 4
@@ -139,6 +202,8 @@ func c01Server(calls *c01Calls, auth bool) (*harness.One, error) {
 			return ctx, true, nil
 		case "err":
 			return ctx, false, errors.New("validator backend unavailable")
+		case "errtrue":
+			return ctx, true, errors.New("credentials match but the audit record could not be written")
 		}
 		return ctx, false, nil
 	}
@@ -371,6 +436,18 @@ func c01Run(startup int, l pwLetter, cont []contLetter, pipelined bool) explore.
 
 func c01Enumerate(tier string, emit explore.Emit) {
 	c01TLS(emit)
+	attempts := []c01Attempt{{"db1", "alice", "good"}, {"db2", "alice", "good"}, {"db1", "bob", "good"}, {"db1", "alice", "bad"}, {"", "alice", "good"}}
+	forShapes(len(attempts), 3, func(sh []int) {
+		if len(sh) < 2 {
+			return
+		}
+		seq := make([]c01Attempt, len(sh))
+		for i, s := range sh {
+			seq[i] = attempts[s]
+		}
+		emit(explore.Case{Family: "login-sequence", Size: 20 + len(seq), Desc: func() any { return map[string]any{"attempts_db_user_password": fmt.Sprint(seq)} },
+			Run: func() explore.Result { return c01RunSequence(seq) }})
+	})
 	letters := c01Letters()
 	contA := c01Cont()
 	depth := c01Depth(tier)
